@@ -355,7 +355,8 @@ pub fn explore(ctx: &Ctx) {
     let lats: Vec<f64> = if quick { vec![-33.9, 21.4233, 58.3, 90.0] } else { vec![-90.0, -33.9, 0.0, 21.4233, 58.3, 90.0] };
     let lons: Vec<f64> = if quick { vec![-180.0, -77.2086, 39.8233] } else { vec![-180.0, -77.2086, 39.8233, 180.0] };
     let elevs: Vec<Option<f64>> = if quick { vec![None, Some(8848.0)] } else { vec![Some(-420.0), None, Some(8848.0)] };
-    let gmts: Vec<f64> = if quick { vec![-12.0, 5.5, 12.0] } else { vec![-12.0, -5.0, 5.5, 12.0] };
+    // incl. a quarter-hour zone (not a multiple of 0.1 h: survives the -p / -i round trip only if written exactly)
+    let gmts: Vec<f64> = if quick { vec![-12.0, 5.75, 12.0] } else { vec![-12.0, -4.5, 5.75, 12.0] };
     let ranges: Vec<(NaiveDate, i64)> = if quick { vec![(ymd(2024, 2, 28), 3), (ymd(2023, 12, 31), 1), (ymd(2023, 6, 1), 400), (ymd(2023, 6, 20), 3)] } else { vec![(ymd(2024, 2, 28), 3), (ymd(2023, 12, 31), 1), (ymd(2023, 12, 31), 2), (ymd(2023, 12, 15), 31), (ymd(2023, 6, 1), 400), (ymd(2024, 3, 5), 0)] };
     let mut methods: Vec<Option<String>> = METHOD_NAMES.iter().map(|m| Some(m.to_string())).collect();
     methods.push(None);
